@@ -1,12 +1,16 @@
 use crate::util::{Opts, Run};
 
 #[cfg(feature = "hooks")]
+pub mod spec;
+#[cfg(feature = "hooks")]
 pub mod tables;
 
 pub fn dispatch(engine: &str, opts: &Opts) -> Option<Run> {
     match engine {
         #[cfg(feature = "hooks")]
         "tables" => Some(tables::run(opts)),
+        #[cfg(feature = "hooks")]
+        "spec" => Some(spec::run(opts)),
         _ => None,
     }
 }
